@@ -259,7 +259,8 @@ def history_case(sink, seed, idx):  # noqa: C901
         for p, d in data.items():
             try:
                 got = pickle.loads(d)
-                out = 'loaded ' + repr(got)[:120]
+                out = f'loaded a treespec with {got.num_nodes} nodes'  # (not its repr: a treespec without its registration may not survive being printed)
+                del got
             except Exception as e:  # noqa: BLE001
                 out = 'raised'
             sink.check(out == 'raised', 'history/unregistered-type-loads', 'loading raises when the custom type is not registered in the recorded namespace (also after an earlier successful load)', dict(ident, proto=p), out)
